@@ -3,7 +3,7 @@
 import re
 from engine import absint
 from engine.rules import (MustPass, guard_edges, eq_matcher, pred_matcher, outcome, loop_each_checked, loop_exits,
-                          variant_switches, switch_bool_edges, bool_atom, success_values, root_fn)
+                          variant_switches, switch_bool_edges, bool_atom, success_values, root_fn, is_derived)
 from engine.sym import Sym, strip, strip_deep, render, walk, short
 from props import common as K
 
@@ -114,6 +114,7 @@ def run(ctx):
                    "an accepted name is never empty, '.' or '..'", detail=[repr(w) for w in bad] or None)
 
     check_join_dot_segments(ctx, f)
+    check_join_failure_kinds(ctx, f)
 
     # ---- C14.a the check is on every decode path -------------------------------
     checks = {}
@@ -1033,6 +1034,61 @@ def check_join_dot_segments(ctx, f):
            'Rsync::check_path answers DotSegments exactly for a segment equal to "." or ".."', where=b.loc,
            detail={"tests": sorted(shown), "problems": problems,
                    "literals": sorted("%s == %r" % (w, v) for w, v in lits)})
+
+
+def check_join_failure_kinds(ctx, f):
+    """`ManifestContent::iter_uris` unwraps `base.join(name)`.  What `join` can object to in a single segment has to be
+    something the manifest's name check already excludes: the function that answers DotSegments (Rsync::check_path,
+    whatever it is called) answers with nothing but DotSegments and EmptySegments, and it answers EmptySegments only after
+    an emptiness test of a segment — a new kind of refusal there (say, a length limit the name check does not know) is a
+    new way for a decoded manifest to panic."""
+    builders = [bd for n, bd in f.bodies.items() if (bd.file or "").endswith("uri.rs") and not is_derived(bd) and
+                any(st["s"] == "assign" and st["rv"]["r"] == "agg" and st["rv"].get("adt") == "uri::Error" and
+                    st["rv"].get("variant") == "DotSegments" for blk in bd.blocks for st in blk["stmts"])]
+    b = builders[0] if len(builders) == 1 else f.body("uri::Rsync::check_path")
+    if b is None:
+        return ctx.missing("R-CLS", "Rsync::check_path:failure-kinds", "uri::Rsync::check_path")
+    s = K.sym_of(b)
+    kinds = {}
+    for bi, blk in enumerate(b.blocks):
+        if blk.get("cleanup"):
+            continue
+        for st in blk["stmts"]:
+            if st["s"] == "assign" and st["rv"]["r"] == "agg" and st["rv"].get("adt") == "uri::Error":
+                kinds.setdefault(st["rv"].get("variant"), []).append(bi)
+    # errors produced by callees (`?` on another check) count as kinds of their own
+    oc = outcome(b)
+    for c in b.calls():
+        if not b.is_cleanup(c.bb) and c.is_static and (c.res or "").startswith("uri::") and c.res in f.bodies and \
+                re.search(r"Result<.*uri::Error>", (f.fns.get(c.res) or {}).get("output") or ""):
+            kinds.setdefault("via " + short(c.res), []).append(c.bb)
+    extra = sorted(k for k in kinds if k not in ("DotSegments", "EmptySegments"))
+    probs = []
+    for bi in kinds.get("EmptySegments", []):
+        tests, problems = reach_tests(b, s, bi)
+        for term, truth in tests:
+            r = render(strip_deep(term))
+            if not re.search(r"is_empty\(|is_some\(|is_none\(|Iterator::next\(", r):
+                probs.append("EmptySegments is answered under a test that is not an emptiness test: %s" % K.alpha(r, b)[:140])
+        probs += problems
+    # … and Rsync::join itself refuses only through its two checks (characters, segments)
+    jb = f.body("uri::Rsync::join")
+    if jb is None:
+        ctx.missing("R-CLS", "Rsync::join:failure-kinds", "uri::Rsync::join")
+    else:
+        ctx.saw_fn(jb.name)
+        own = sorted({st["rv"].get("variant") for blk in jb.blocks if not blk.get("cleanup") for st in blk["stmts"]
+                      if st["s"] == "assign" and st["rv"]["r"] == "agg" and st["rv"].get("adt") == "uri::Error"})
+        via = sorted({short(c.res) for c in jb.calls() if not jb.is_cleanup(c.bb) and c.is_static and c.res in f.bodies and
+                      re.search(r"Result<.*uri::Error>", (f.fns.get(root_fn(f, c.res)) or {}).get("output") or "")})
+        chk = [c for c in jb.calls() if not jb.is_cleanup(c.bb) and c.res == b.name]
+        ascii_ = [v for v in via if v != short(b.name)]
+        ctx.ob("R-CLS", "Rsync::join:failure-kinds", not own and bool(chk) and len(ascii_) <= 1,
+               "Rsync::join refuses a path only through the character check and %s" % short(b.name), where=jb.loc,
+               detail={"own_refusals": own, "refusing_callees": via})
+    ctx.ob("R-CLS", "Rsync::check_path:failure-kinds", not extra and not probs and "DotSegments" in kinds,
+           "%s refuses a path only for dot segments and empty segments" % short(b.name), where=b.loc,
+           detail={"kinds": {k: len(v) for k, v in kinds.items()}, "unreviewed_kinds": extra, "problems": probs})
 
 
 # ======================================================================================================================
